@@ -170,7 +170,7 @@ def main():
             cases.append(dict(setting=si, other=oi, cli=False, file=True, env=True, cli_spelling='short', file_spelling='hyphen-key', other_file=False, config_present=True, vlen=1))
     for c in cases[::23]: c['sample'] = True
     chk.bounds = {'settings': [s[0] for s in SETTINGS], 'source subsets': 'all 8 per setting', 'spellings': ['-x=', '--long='] + spellings + ['hyphen-key'], 'cases': len(cases)}
-    results = chk.run_cases(case, cases, label='set_default_values + bootstrap', case_timeout=300)
+    results = chk.run_cases(case, cases, label='set_default_values + bootstrap', case_timeout=900)
     chk.extra['final_environments_compared'] = sum(r.get('compared', 0) for r in results)
 
     def replay(v):
